@@ -22,7 +22,23 @@ def main():
             self.replay_mode = True
         common.Result.__init__ = _init
     mod = importlib.import_module(a.prop.lower())
-    rc = mod.run(tier, seed, replay=a.replay)
+    try:
+        rc = mod.run(tier, seed, replay=a.replay)
+    except BaseException as e:
+        if isinstance(e, (KeyboardInterrupt, SystemExit)):
+            raise
+        # the check itself could not be completed on this tree (the implementation behaves in a way the harness did not expect,
+        # e.g. exhausts the stack): the property is not shown to hold; say so instead of dying with a traceback only
+        tb = traceback.format_exc()
+        sys.stderr.write(tb)
+        R = common.Result(a.prop.upper(), tier, seed, level='proof')
+        R.cov.update(checker_cmd='harness/check.py', trusted_base=[common.KERNEL], evaluations=0, distinct_nontrivial=0,
+                     rule='the check did not complete')
+        R.obligation('the check runs to completion', False)
+        R.violation({'what': f'the check for {a.prop.upper()} could not be completed: {type(e).__name__}: {str(e)[:300]}',
+                     'theorem': 'correspondence harness (no model/implementation comparison could be made)',
+                     'traceback': tb[-3000:]}, nofail=True)
+        rc = R.finish()
     sys.exit(rc)
 
 
